@@ -50,6 +50,13 @@ pub struct RespScenario {
     pub preset_content_encoding: Option<String>,
     pub content_type: Option<String>,
     pub user_content_length: bool,
+    /// serve over a simulated HTTP/1 connection and judge the bytes on the wire (parsed by the
+    /// independent response reader) instead of the in-process response object
+    #[serde(default)]
+    pub wire: bool,
+    /// the handler announces the length itself with `no_chunking(len)`
+    #[serde(default)]
+    pub no_chunking: bool,
 }
 
 #[derive(Clone, Debug, Serialize, Deserialize)]
@@ -282,7 +289,96 @@ struct RespOut {
     pending_fired: u64,
 }
 
+fn build_response(sc: &RespScenario, st: Rc<RefCell<BodyState>>, data: Vec<u8>) -> HttpResponse {
+    let mut b = HttpResponse::build(StatusCode::from_u16(sc.status).unwrap());
+    if let Some(ce) = &sc.preset_content_encoding {
+        b.insert_header(("content-encoding", ce.as_str()));
+    }
+    if let Some(ct) = &sc.content_type {
+        b.insert_header(("content-type", ct.as_str()));
+    }
+    if sc.no_chunking && sc.body != BodyKind::Empty {
+        b.no_chunking(data.len() as u64);
+    } else if sc.user_content_length {
+        b.insert_header(("content-length", data.len().to_string()));
+    }
+    match sc.body {
+        BodyKind::Empty => b.finish(),
+        BodyKind::Full => b.body(Bytes::from(data)),
+        BodyKind::Stream => b.body(ScriptBody { st, size: BodySize::Stream }),
+        BodyKind::SizedStream => b.body(ScriptBody { st, size: BodySize::Sized(data.len() as u64) }),
+    }
+}
+
+/// The same response served over a simulated HTTP/1 connection; what is judged is what an
+/// independent reader makes of the bytes on the wire.
+fn run_response_wire(sc: &RespScenario) -> RespOut {
+    use actix_http::{HttpService, Protocol};
+    use actix_service::{map_config, Service, ServiceFactory};
+    use actix_web::dev::AppConfig;
+    let data = content(sc.len, sc.compressible);
+    let chunks = split(&data, &sc.chunk_sizes);
+    let st = Rc::new(RefCell::new(BodyState { chunks, k: 0, pendings: sc.pendings.clone(), waker: None, pending_fired: 0, polls_after_end: 0, done: false }));
+    let sc2 = sc.clone();
+    let st2 = st.clone();
+    let mut o = run_sim(async move {
+        let sc = sc2;
+        let (sc_h, st_h, data_h) = (sc.clone(), st2.clone(), data.clone());
+        let app = move || {
+            let (sc_h, st_h, data_h) = (sc_h.clone(), st_h.clone(), data_h.clone());
+            App::new().wrap(Compress::default()).default_service(web::to(move || {
+                let (sc, st, data) = (sc_h.clone(), st_h.clone(), data_h.clone());
+                async move { build_response(&sc, st, data) }
+            }))
+        };
+        let factory = HttpService::<crate::sock::ServerEnd, _, _>::build()
+            .keep_alive(actix_http::KeepAlive::Os)
+            .client_request_timeout(Duration::ZERO)
+            .client_disconnect_timeout(Duration::ZERO)
+            .finish(map_config(app(), |_| AppConfig::default()));
+        let handler = factory.new_service(()).await.expect("service init");
+        tokio::task::yield_now().await;
+        let tape = Rc::new(RefCell::new(Tape::from_fixed(vec![], 0, true)));
+        let (se, ss) = crate::sock::new_socket(crate::sock::SockPlan::default(), tape, crate::sock::Clock::new());
+        let mut req = String::from("GET /x HTTP/1.1\r\nhost: sim\r\nconnection: close\r\n");
+        if let Some(ae) = &sc.accept_encoding {
+            req.push_str(&format!("accept-encoding: {}\r\n", ae));
+        }
+        req.push_str("\r\n");
+        ss.st.borrow_mut().deliver(req.as_bytes());
+        let cfut = handler.call((se, Protocol::Http1, None));
+        let fut: Pin<Box<dyn std::future::Future<Output = ()>>> = Box::pin(async move {
+            let _ = cfut.await;
+        });
+        let hang = drive(fut, st2.clone()).await;
+        let wire = ss.st.borrow().out.clone();
+        let p = crate::resp::parse_stream(&wire, &[false], true);
+        let mut o = RespOut { status: 0, headers: vec![], body: vec![], hang, body_error: None, pending_fired: 0 };
+        match p.resps.iter().find(|r| r.status >= 200) {
+            Some(r) => {
+                o.status = r.status;
+                o.headers = r.headers.iter().map(|(n, v)| (n.to_ascii_lowercase(), v.clone())).collect();
+                o.body = r.body.clone();
+                if !r.complete {
+                    o.body_error = Some("response incomplete on the wire".into());
+                }
+                if r.end < wire.len() {
+                    o.body_error = Some(format!("{} bytes follow the response on the wire", wire.len() - r.end));
+                }
+            }
+            None => o.body_error = Some(format!("no response could be read from the {} bytes on the wire", wire.len())),
+        }
+        drop(handler);
+        o
+    });
+    o.pending_fired = st.borrow().pending_fired;
+    o
+}
+
 fn run_response(sc: &RespScenario) -> RespOut {
+    if sc.wire {
+        return run_response_wire(sc);
+    }
     let data = content(sc.len, sc.compressible);
     let chunks = split(&data, &sc.chunk_sizes);
     let st = Rc::new(RefCell::new(BodyState { chunks, k: 0, pendings: sc.pendings.clone(), waker: None, pending_fired: 0, polls_after_end: 0, done: false }));
@@ -300,24 +396,7 @@ fn run_response(sc: &RespScenario) -> RespOut {
             let sc = sc_h.clone();
             let st = st_h.clone();
             let data = data_h.clone();
-            async move {
-                let mut b = HttpResponse::build(StatusCode::from_u16(sc.status).unwrap());
-                if let Some(ce) = &sc.preset_content_encoding {
-                    b.insert_header(("content-encoding", ce.as_str()));
-                }
-                if let Some(ct) = &sc.content_type {
-                    b.insert_header(("content-type", ct.as_str()));
-                }
-                if sc.user_content_length {
-                    b.insert_header(("content-length", data.len().to_string()));
-                }
-                match sc.body {
-                    BodyKind::Empty => b.finish(),
-                    BodyKind::Full => b.body(Bytes::from(data)),
-                    BodyKind::Stream => b.body(ScriptBody { st, size: BodySize::Stream }),
-                    BodyKind::SizedStream => b.body(ScriptBody { st, size: BodySize::Sized(data.len() as u64) }),
-                }
-            }
+            async move { build_response(&sc, st, data) }
         })))
         .await;
         let mut tr = awtest::TestRequest::get().uri("/x");
@@ -475,6 +554,9 @@ impl Rig for CcRig {
                 _ => None,
             },
             user_content_length: rng.chance(1, 8),
+            // statuses whose framing on the wire is special (no body / upgrade) stay in-process
+            wire: !matches!(status, 101 | 204 | 304) && rng.chance(1, 2),
+            no_chunking: rng.chance(1, 6),
         })
     }
 
@@ -535,7 +617,7 @@ impl Rig for CcRig {
                             // (a Content-Length the handler set itself stays in the header map at this
                             // level; whether it reaches the wire is decided by the HTTP/1 and HTTP/2
                             // encoders and judged by their rigs)
-                            if let Some(cl) = hdr("content-length").filter(|_| !r.user_content_length) {
+                            if let Some(cl) = hdr("content-length").filter(|_| r.wire || !(r.user_content_length || r.no_chunking)) {
                                 if cl.parse::<usize>().ok() != Some(o.body.len()) {
                                     vs.push(Violation::new("C13.no-stale-length", coding.clone(), format!("compressed response carries content-length {} but its body has {} bytes", cl, o.body.len())));
                                 }
